@@ -1,7 +1,7 @@
 from props_common import BASE_TB
 
 PROP = {
-    "modules": ["YorkieModel.Props.C11"],
+    "modules": ["YorkieModel.Props.C11", "YorkieModel.Props.C11Remove"],
     "engines": [
         # integrated engine: real client SDK + real in-process server (memory DB), traffic captured at the HTTP transport
         {"name": "srv", "args": ["orc=c11"], "quick": {"n": 320, "workers": 8}, "thorough": {"n": 8000, "workers": 14}},
